@@ -121,13 +121,23 @@ func c14Families(tier string) []engine.Family {
 	}
 
 	// one (stream, target) run with all oracles; returns the result dump
+	prefill := false
 	runPair := func(x *engine.Exec, tg c14Target, evs []model.Event, class string, fam string) {
 		desc := fmt.Sprintf("%s <- %s", tg.name, model.EventsString(evs))
+		if prefill {
+			desc = "prefilled " + desc
+		}
 		x.Case(desc, len(evs) > 1)
 		x.Sample(func() interface{} {
 			return map[string]interface{}{"target": tg.name, "events": model.EventsString(evs)}
 		})
 		ptr, canariesOK := guarded(tg.t)
+		if prefill {
+			// the target already holds a value (non-nil pointers, slices longer than the document's arrays, maps with entries)
+			if vals := gen.Values(tg.t, 0); len(vals) > 1 && ptr.Elem().CanSet() {
+				ptr.Elem().Set(vals[len(vals)-1])
+			}
+		}
 		usup, why := model.UnfoldSupported(tg.t)
 		stage := "SetTarget"
 		delivered := 0
@@ -251,6 +261,8 @@ func c14Families(tier string) []engine.Family {
 			default:
 				evs = []model.Event{model.ObjStart(-1, 0), model.Key("a"), model.ArrStart(-1, hint), ev, model.Nil(), model.ArrEnd(), model.Key("b"), ev, model.ObjEnd()}
 			}
+			prefill = x.Bool()
+			defer func() { prefill = false }()
 			runPair(x, tg, evs, "kind-cross:"+kindClass(tg.t)+"<-"+leafClass(ev), "kind-cross")
 		}},
 		{Name: "deep-nesting", Body: func(x *engine.Exec) {
